@@ -23,16 +23,16 @@ CHECKS = {
            "any minimum one",
            "Prototype sets produced by the real code on every graph x labeling of C01's families (supervised and "
            "semi-supervised, up to 7 samples) must be a member of the all-MST boundary family; covers every tie "
-           "pattern for n<=4 and uniqueness on all strict orders; also tables with negative weights, int64 matrices whose weights differ beyond the 53rd bit (exact integer oracle) and the classifier left by learn()."),
+           "pattern for n<=4 and uniqueness on all strict orders; also tables with negative weights, int64 matrices whose weights differ beyond the 53rd bit (exact integer oracle), the classifier left by learn(), and two dense groups plus a stray sample (n = 9..29, unique tree)."),
  "C03": _e("bounded-exhaustive exploration of (fitted forest, query) pairs against the exhaustive argmin",
            "Every fitted forest on n<=4(5) samples x every query distance vector over the alphabet (train on each "
            "n-subset of each (n+1)-graph, predict the rest), value tables in near-equal / tiny / huge regimes, "
-           "direction-dependent metrics, tiny-scale lattices, integer-typed training matrices, descending identifier arrays and one object toggled between matrix-fed and metric-fed use; the returned label must belong to the exhaustive "
+           "direction-dependent metrics, tiny-scale lattices, integer-typed training matrices, descending identifier arrays one object toggled between matrix-fed and metric-fed use, and all six-node graphs over two weight levels; the returned label must belong to the exhaustive "
            "minimisers' label set computed from the model's own costs."),
  "C04": _e("bounded-exhaustive exploration: all strict edge orders, all arrangements of a generic point set under 40 "
            "metrics, numerical-regime tables, all lattice data for KNN",
            "All tie-free order types for n<=4 (thorough: all 10! for n=5), every dissimilarity metric, near-equal / "
-           "huge / tiny regimes and one tie-free chain of 1100 samples (optimum paths > 1000 arcs deep) are trained and re-predicted by the real code; KNN-supervised on all lattice "
+           "huge / tiny regimes, five-sample arrangements, the classifier left by learn() and one tie-free chain of 1100 samples (optimum paths > 1000 arcs deep) are trained and re-predicted by the real code; KNN-supervised on all lattice "
            "sequences with ties, validation sets and max_k."),
  "C05": _e("explicit-state model checking of the real Heap: BFS to fixpoint from the empty heap (reference priority "
            "queue in lock-step) plus depth-bounded BFS from every valid heap arrangement of up to 9 (10) keys",
@@ -46,12 +46,12 @@ CHECKS = {
            "All ordered pairs over the R/N/P/S/T grids (lengths 1..3, thorough 4) for all 47 identifiers via the "
            "registry (as separate buffers and as rows of one matrix), every vector length 1..160 and around 256/512/1024 incl. a cancellation-prone pair, resolution "
            "through OPF and the four model constructors (also after a save/load into another identifier, and with all "
-           "47 x 5 objects alive at once) and the accepted-identifier set."),
+           "47 x 5 objects alive at once), zero-containing probability vectors under the epsilon-shift convention, and the accepted-identifier set."),
  "C07": _e("explicit-state search over call histories (pool bits x hidden-state digest x model digest) with prefix "
            "replay from a restored pristine module state; all metric call histories of length <= 3",
            "Every history of <=3 operations over {metric call on any ordered (also aliased) pair, caller overwrites "
            "its vector in place, float32 evaluation} for all 47 metrics; BFS to fixpoint (depth<=4) over model "
-           "operations incl. fits of unrelated models, a fit of the same object on two samples, matrices holding inf/nan and big-endian matrices for the four kinds; fresh-twice differential; each transition "
+           "operations incl. fits of unrelated models, a fit of the same object on two samples, matrices holding inf/nan big-endian matrices and heavily tied training sets for the four kinds; fresh-twice differential; each transition "
            "is a real call checked for caller-array bit-identity and history-independent value.", engine="explorer-B"),
  "C08": _e("bounded-exhaustive evaluation of the fixed axiom table on all ordered pairs and all ordered triples of "
            "the domain grids (pair matrix filled by real calls)",
@@ -59,7 +59,7 @@ CHECKS = {
            "class grids (incl. the tolerance ladder around 1e-8 / 1e-5 and zero-containing vectors) for the rows of "
            "the axiom table; finiteness and symmetry also on vectors of length 32..1024; every zero also as -0.0; integer-typed vectors with exact zeros against their float64 copies."),
  "C09": _e("exhaustive enumeration of all batches (<=3) and all two-call histories over a query pool for every fitted "
-           "model of the bounded families; model-state hash closes the history space",
+           "model of the bounded families; model-state hash closes the history space; batches of 33..81 samples",
            "For each of the four kinds and every lattice training sequence (KNN/unsupervised also with k forced), "
            "every batch/history in the bounds is predicted by the real code and compared with the sample's "
            "stand-alone outcome; the prediction-relevant model state is hashed after each call (fixpoint at one "
@@ -69,7 +69,7 @@ CHECKS = {
            "For every dataset in the bounds the distance file is produced by pre_compute_distance (.txt and .csv) and "
            "every ordered train/test index split is trained and predicted twice (file-fed vs feature-fed); node "
            "state, order, best_k, clusters and predictions must be bit-identical; get_distances() vs the metric on "
-           "all ordered pairs; metrics with non-zero self-distance and index sets that overlap or repeat a row; distance files whose first entry is negative."),
+           "all ordered pairs; metrics with non-zero self-distance and index sets that overlap or repeat a row; distance files whose first entry is negative; antisymmetric and nearly symmetric metrics."),
  "C11": _e("bounded-exhaustive metamorphic exploration: all n! training orders x five monotone metric transforms; "
            "monotone ladder of 1.8e5 distances per identifier",
            "Every permutation of every tie-free training set in the bounds (integer pools, a pool with cancelling "
@@ -83,7 +83,7 @@ CHECKS = {
            "state dedup, and the subgraph state left by both density fits, compared with a sorted-distance "
            "reference.", engine="explorer-B"),
  "C13": _e("bounded-exhaustive exploration of both density fits over lattice / generic / graph / squeezed-density "
-           "families and all k ranges, with the validation criterion scripted to select every k; forest invariants "
+           "families, density plateaus of 6..32 samples and all k ranges, with the validation criterion scripted to select every k; forest invariants "
            "on the final state, adjacency snapshots through outside seams, k-NN radius recomputed independently",
            "All lattice sequences (heavy ties), generic arrangements, pre-computed graphs and gap-sequence sets with "
            "an outlier x all k ranges x every selectable k: every clause of the statement is evaluated on the real "
@@ -91,30 +91,30 @@ CHECKS = {
  "C14": _e("bounded-exhaustive exploration of (fitted model, query, batch position) against the exhaustive k-nearest "
            "max-min rule with every valid tie choice",
            "Every model of the lattice families (every k also forced) x every query (training copies, midpoints, "
-           "far, and the critical points where the reference's answer changes, located by bisection) x every batch position 0..n, plus a 1e-11-scaled family; membership in the set of outcomes allowed "
+           "far, and the critical points where the reference's answer changes, located by bisection; six generic samples with one class per sample; a semimetric) x every batch position 0..n, plus a 1e-11-scaled family; membership in the set of outcomes allowed "
            "by the exhaustive rule."),
  "C15": _e("bounded-exhaustive exploration of SemiSupervisedOPF.fit over all graphs on labeled+unlabeled nodes, "
            "minimax reference + differential vs SupervisedOPF",
            "Every graph on n_l+n_u <= 6 nodes over the weight alphabet x every labeling, lattice sequences, int64 "
            "labeled matrices and index arrays without pre-computed distances: full-graph minimax reference, "
-           "labeled-MST prototype family, and state identity with SupervisedOPF when n_u = 0."),
+           "labeled-MST prototype family, state identity with SupervisedOPF when n_u = 0, and chains of 3..30 unlabeled samples."),
  "C16": _e("stateless choice exploration: every criterion answer sequence scripted through the intercepted accuracy / "
            "cut routine (also on previously used instances); plus recorded natural criterion values",
            "All answer sequences over the criterion alphabets (with near-tie and tiny positive values) for every k "
            "range up to 4 on fresh and on previously fitted instances, k ranges up to 9 and 12 on larger sets, and all lattice training/validation sets "
-           "with the real criterion recorded; oracle = smallest best candidate and final model built with it.",
+           "with the real criterion recorded; oracle = smallest best candidate and final model built with it; every natural criterion value recomputed from its definition (validation accuracy; normalised cut, also against a model restricted to that k).",
            engine="explorer-D"),
  "C17": _e("stateless choice exploration of every RNG answer sequence of SupervisedOPF.learn by prefix replay (also "
            "with the accuracy scripted); bounded-exhaustive exploration of predict marking and prune runs",
            "All 648 tiny learn configurations over every sequence of answers of the intercepted random draw, plus "
            "every accuracy script over {0, 0.5, 1}; relevance marking against every choice of exhaustive minimisers "
-           "on all forests of the C03 families incl. zero weights; prune re-fit sets against the flags on 1-D and "
+           "on all forests of the C03 families incl. zero weights, on chains of 5..40 samples and over two passes on one object; prune re-fit sets against the flags on 1-D and "
            "2-D lattice arrangements.", engine="explorer-D"),
  "C18": _e("stateless choice exploration: every permutation answer of the intercepted numpy permutation in split; "
            "bounded-exhaustive exploration of all small OPF binary datasets through the converters/loaders/parser",
            "split/split_with_index/merge for every permutation the RNG could return (n<=5), every percentage and "
            "label pattern; all small datasets (ids up to 2**31-1) written as OPF binaries and taken through "
-           "opf2txt/csv/json, the loaders, the parser and Subgraph(from_file), re-using the same paths; file names with further dots.",
+           "opf2txt/csv/json, the loaders, the parser and Subgraph(from_file), re-using the same paths; file names with further dots; files of 4 097..16 400 samples; negative labels.",
            engine="explorer-D"),
  "C19": _e("explicit enumeration of all enabled save/load/predict operation sequences (prefix replay) for every kind "
            "x metric x distance mode, field-by-field state comparison",
